@@ -203,6 +203,99 @@ def r16_5(ctx, counts) -> RuleResult:
     return res
 
 
+def r16_6(ctx, counts) -> RuleResult:
+    """the comparator behind fn:sort is oriented: -1 means first operand < second operand"""
+    from .sides import Sides
+    model = ctx.model
+    res = RuleResult(
+        'R16.6', 'COMPARATOR-ORIENTATION',
+        'In compare.deep_compare and its nested etree_deep_compare (the comparator behind '
+        'fn:sort and array:sort) every conditional result `-1 if A < B else 1` (and the mirrored '
+        'forms with >, or with 1 and -1 exchanged) returns -1 exactly when the value derived '
+        'from the FIRST operand is the smaller one. Operand sides are tracked from the two '
+        'parameters through assignments and zip/zip_longest loop targets. A comparison with the '
+        'sides exchanged makes the comparator answer differently depending on operand order, so '
+        'sort returns an unordered permutation.')
+    mod = model.module('elementpath.compare')
+    funcs = [f for f in mod.functions.values() if f.name in ('deep_compare', 'etree_deep_compare')]
+    if len(funcs) < 1:
+        raise AnalysisError('compare.deep_compare vanished')
+    n = 0
+    for f in sorted(funcs, key=lambda q: q.key):
+        sides = Sides(f.params())
+        ifexps: list[tuple[ast.IfExp, dict]] = []
+
+        def walk(stmts: list[ast.stmt]) -> None:
+            nonlocal n
+            for st in stmts:
+                if isinstance(st, (ast.FunctionDef, ast.AsyncFunctionDef, ast.ClassDef)):
+                    continue
+                if isinstance(st, ast.Assign) and len(st.targets) == 1:
+                    sides.bind(st.targets[0], st.value)
+                if isinstance(st, ast.For):
+                    sides.bind_for(st)
+                    walk(st.body)
+                    walk(st.orelse)
+                    continue
+                simple = not isinstance(st, (ast.If, ast.While, ast.Try, ast.With, ast.Match))
+                for x in (ast.walk(st) if simple else
+                          ast.walk(st.test) if isinstance(st, (ast.If, ast.While)) else []):
+                    if isinstance(x, ast.IfExp):
+                        check(x)
+                if isinstance(st, (ast.If, ast.While)):
+                    walk(st.body)
+                    walk(st.orelse)
+                elif isinstance(st, ast.With):
+                    walk(st.body)
+                elif isinstance(st, ast.Try):
+                    walk(st.body)
+                    for h in st.handlers:
+                        walk(h.body)
+                    walk(st.orelse)
+                    walk(st.finalbody)
+                elif isinstance(st, ast.Match):
+                    for case in st.cases:
+                        walk(case.body)
+
+        def const(e: ast.expr):
+            if isinstance(e, ast.Constant):
+                return e.value
+            if isinstance(e, ast.UnaryOp) and isinstance(e.op, ast.USub) and \
+                    isinstance(e.operand, ast.Constant):
+                return -e.operand.value
+            return None
+
+        def check(x: ast.IfExp) -> None:
+            nonlocal n
+            b, o = const(x.body), const(x.orelse)
+            t = x.test
+            if {b, o} != {-1, 1} or not (isinstance(t, ast.Compare) and len(t.ops) == 1
+                                           and isinstance(t.ops[0], (ast.Lt, ast.Gt))):
+                return
+            sa, sb = sides.side(t.left), sides.side(t.comparators[0])
+            if sa is None or sb is None or sa == sb:
+                return          # not an operand-vs-operand comparison (e.g. `-1 if value1 else 1`)
+            n += 1
+            first_smaller = (isinstance(t.ops[0], ast.Lt) and (sa, sb) == (1, 2)) or \
+                (isinstance(t.ops[0], ast.Gt) and (sa, sb) == (2, 1))
+            ok = (b == -1) == first_smaller
+            res.instances.append(f'{f.key}: `{stmt_text(x)}` sides ({sa},{sb}) oriented={ok}')
+            if ok:
+                res.ok()
+            else:
+                res.fail(finding('R16.6', f, x, f'{stmt_text(x)[:50]}',
+                                 f'`{stmt_text(x)}` returns {b} when the value of operand '
+                                 f'{sa if isinstance(t.ops[0], ast.Lt) else sb} is the smaller one: '
+                                 f'the orientation is reversed with respect to the other '
+                                 f'branches, so sort((2e0, 1.5)) keeps the pair unordered'))
+        # nested function: its own parameters
+        walk(f.node.body)
+    counts['oriented_comparisons'] = n
+    if n < 6:
+        raise AnalysisError(f'only {n} oriented comparisons located in deep_compare')
+    return res
+
+
 def run(ctx) -> dict:
     counts: dict[str, int] = {}
     r2 = r05_1(ctx, counts, only=set(ITEM_CODE), rule='R05.1')
@@ -211,7 +304,8 @@ def run(ctx) -> dict:
                'function-item code: ' + ', '.join(ITEM_CODE) + '. ' + r2.text)
     r52 = r05_2(ctx, counts)
     r52.title = 'PARAMETER-SCOPE (R16.4 = R05.2)'
-    results = [r16_1(ctx, counts), r2, r16_3(ctx, counts), r52, r16_5(ctx, counts)]
+    results = [r16_1(ctx, counts), r2, r16_3(ctx, counts), r52, r16_5(ctx, counts),
+               r16_6(ctx, counts)]
     return {
         'results': results, 'counts': counts,
         'explanation':
